@@ -80,7 +80,7 @@ class Block1Spool:
         else:
             try:
                 self._assemblies[block_key]._append_request_block(req)
-            except KeyError:
+            except (KeyError, ValueError):
                 # KeyError: Received unmatched blockwise response
                 # ValueError: Failed to assemble -- gaps or overlaps in data
                 raise IncompleteException from None
